@@ -73,8 +73,8 @@ Theorem reader_roundtrip :
 Proof. exact reader_roundtrip_lemma. Qed.
 
 (* What "expected" means.  A record is written as a list of lines (items) in ANY order:
-   AC / ID / NA / DE lines, BA / BS / BF / CO lines (not shown by Record), XX lines and
-   matrix blocks and reference blocks (RN line with optional cross reference, then RX / RA /
+   AC / ID / NA / DE lines, BA / BS / BF / CO lines, runs of CC lines and DT lines (none of
+   them shown by Record), XX lines, matrix blocks and reference blocks (RN line with optional cross reference, then RX / RA /
    RT / RL lines).  Every field of the expected record is the value of the LAST line of its
    kind, the matrix that of the last matrix block, the references those of the reference
    blocks in file order (number, cross reference, last RX / RT / RL of the block) ... *)
@@ -148,7 +148,8 @@ Definition ex_recs : list prec :=
       IField FID ["o";"l";"d"]; IXX; IXX; IField FID ["M";"1"];
       IRef ["1";"2"] (Some ["R";"E";"7"]) [RX ["9";"9"]; RA [" ";"D";"o";"e";" ";"J";"."]; RT ["t";" ";"1"]; RL ["l"]];
       IRef ["2"] None [] ];
-    [ IField FDE ["d"]; IField FAC ["a";"c"]; IXX ];
+    [ IField FDE ["d"]; ICC [" ";"c";"1"] [[]; [" ";"c";"3"]]; IField FAC ["a";"c"]; IXX;
+      IDT ["1";"9"] ["1";"0"] ["1";"9";"9";"2"] true ["e";"w";"i"]; ICC [] [] ];
     [] ].
 
 Example ex_wf : wf_file Dna (Some ["v";"1"]) ex_recs = true.
